@@ -464,6 +464,9 @@ class Gen:
             e = self.expr(3) if r.chance(1, 4) else self.elem(2)
             if r.chance(1, 5):
                 e = r.pick(SCOPE_SPECIAL)       # lowerings that need a temporary, a capture or a helper
+                # the feature vector must stay sound: these use sole identifier / call children,
+                # `on` objects and directives
+                self.f("single:maybe", "attrk:on", "attrk:directive", "special")
             self.f("ctx:%d" % ctx)
             if ctx <= 3:
                 parts.append(f"const v{len(parts)} = {e};\n")
